@@ -24,17 +24,17 @@ Proof.
   leaf_auto.
 Qed.
 
-Lemma c_read_vt_entry_eq b addr d id : in_u16 id -> td_range d ->
+Lemma c_read_vt_entry_eq b addr d id : id_ok id -> td_inv d ->
   c_read_vt_entry (td_of b addr d) id = read_vt_entry b d id.
 Proof.
-  unfold in_u16, td_range, in_u32. intros Hi Hd.
+  intros Hi Hd.
   unfold c_read_vt_entry, read_vt_entry, td_of, ptr_of, r16, s32, u64, u32, u16.
   cbn [td_vsize td_vtable p_rd16].
   leaf_auto.
 Qed.
 
 Lemma c_get_offset_field_eq b addr d id required out0 :
-  in_u16 id -> in_s32 required -> td_range d -> wf_buf b ->
+  id_ok id -> in_s32 required -> td_inv d -> wf_buf b ->
   match c_get_offset_field (td_of b addr d) id required out0 with
   | None => fst (get_offset_field b d id (negb (required =? 0))) = VOob
   | Some (r, o) =>
@@ -42,7 +42,7 @@ Lemma c_get_offset_field_eq b addr d id required out0 :
       (r = 0 -> o = snd (get_offset_field b d id (negb (required =? 0))))
   end.
 Proof.
-  unfold td_range, in_s32. intros Hi Hr Hd Hwf.
+  unfold in_s32. intros Hi Hr Hd Hwf.
   unfold c_get_offset_field, get_offset_field, c_read_vt_entry, read_vt_entry, td_of, ptr_of, r16, s32, u64, u32, u16.
   cbn [td_vsize td_vtable td_buf td_table td_tsize p_rd16 p_addr].
   leaf_auto.
@@ -60,13 +60,13 @@ Qed.
 
 Lemma leaf_example :
   pow2_16 8 /\ wf_buf (of_list [4; 0; 0; 0; 3; 0; 0; 0; 97; 98; 99; 0]) /\
-  td_range {| t_o := 0; t_end := 20; t_ttl := 99; t_vtable := 0; t_table := 8; t_tsize := 12; t_vsize := 8 |} /\
+  td_inv {| t_o := 0; t_end := 20; t_ttl := 99; t_vtable := 0; t_table := 8; t_tsize := 12; t_vsize := 8 |} /\ id_ok 3 /\
   c_check_header 12 0 4 = 1 /\ c_check_header 7 0 4 = 0 /\
   c_verify_string (ptr_of (of_list [4; 0; 0; 0; 3; 0; 0; 0; 97; 98; 99; 0]) 0 0) 12 0 4 = Some 0 /\
   c_verify_string (ptr_of (of_list [4; 0; 0; 0; 4; 0; 0; 0; 97; 98; 99; 0]) 0 0) 12 0 4 = Some E_string_out_of_range.
 Proof.
   split; [unfold pow2_16; cbn [In]; tauto|].
   split; [apply of_list_wf|].
-  split; [unfold td_range, in_u32, in_u16; cbn; lia|].
+  split; [reflexivity|]. split; [reflexivity|].
   repeat split; vm_compute; reflexivity.
 Qed.
